@@ -8,8 +8,17 @@ Correspondence (model `IrVerif.Extract`, driver commands extract.*):
   * `_collect_all_external_values` vs `externalValues`; `create_value_mapping(include_subgraphs=False)` vs
     `valueMapping`; `analyze_implicit_usage` vs `analyze`.
 The model's world is *observed from the real objects* (names, producer(), .graph, is_initializer(), node
-inputs/outputs/graph attributes), never taken from the generator's description.  The driver also evaluates the
-decidable hypotheses of the theorems on every case (histogram keys hyp_*).
+inputs/outputs and the attribute list with each attribute's kind: reference / GRAPH / GRAPHS / other — the
+model's `attrBodies` decides which graphs that gives), never taken from the generator's description.  The
+driver also evaluates the decidable hypotheses of the theorems on every case (histogram keys hyp_*).
+
+Round 3 streams: `byname` (few names, many clashes: one name on an initializer, a graph input and node values,
+empty / None / missing names; `extract.resolve` compares lookup, precedence class and candidate list with the
+real dict and an independent reading of the documented precedence), `views` (GraphView sources whose node list
+is a slice, a non-contiguous subset, a list with repeated nodes, a shuffled list), `deep` (nesting depth 4..6
+through GRAPH attributes and members of GRAPHS attributes, reference and plain attributes in between;
+analyze_implicit_usage on every graph and on the Function object), `necessity` (the counterexamples of the
+C18_*_needs_* theorems built on the real code: extract must be loud where a hypothesis fails).
 
 Property oracle (independent of the model, on the real objects): a brute-force least fixed point from a
 structural reading (no back pointers) gives the needed values/nodes/initializers and whether a required value
@@ -51,6 +60,22 @@ THEOREMS = [
     P + "C18_captures_complete",
     P + "C18_captures_sound",
     P + "C18_independent",
+    # round 3
+    P + "C18_by_name_resolves",
+    P + "C18_by_name_missing",
+    P + "C18_order_view",
+    P + "C18_nodes_exact_source",
+    P + "C18_order_source",
+    P + "C18_inits_source",
+    P + "C18_eval_strong",
+    P + "C18_extract_eval_strong",
+    P + "C18_source_of_C01",
+    P + "C18_eval_needs_sorted",
+    P + "C18_eval_needs_closed",
+    P + "C18_extract_eval_needs_scope",
+    P + "C18_captures_exact",
+    P + "C18_captures_any_root",
+    P + "C18_attrs_bodies",
 ]
 ASSUMPTIONS = [
     "Python sets are modelled as lists (iteration order of a set is hash order in Python, list order in the "
@@ -72,12 +97,29 @@ ASSUMPTIONS = [
     "result (C13_frame); the C18 harness compares the identity sets on the real objects (values, nodes, "
     "graphs, shape/type/metadata objects, graph-valued Attr objects, attribute containers, sharding-spec "
     "values); tensors and plain immutable Attr objects are shared by design",
-    "a GraphView passed as graph-like has no duplicate nodes; boundary values given by object to a view are "
-    "not values defined inside a nested graph",
+    "a GraphView passed as graph-like may list its nodes in any order, a subset of them, or a node several "
+    "times (node_index is a dict comprehension: the last position counts; C18_order_view / C18_order_source); "
+    "boundary values given by object to a view are not values defined inside a nested graph (the ownership "
+    "check of the clone's Graph constructor is kernel behaviour and is not modelled)",
+    "by-name resolution is modelled and proved (C18_by_name_resolves: lookups of create_value_mapping(graph, "
+    "include_subgraphs=False) = first pair in the order initializer dict, graph inputs, node inputs then "
+    "outputs in node order; the unique-names clause has the decidable hypothesis namesUniqueB, share in "
+    "hyp_names_unique); the initializer dict is observed (keys as they are), not derived from value names",
+    "hypotheses of the evaluation theorems after round 3: 'no initializer is produced' and 'distinct initializer "
+    "names' are discharged (C18_eval_strong, C18_extract_eval_strong); duplicate-free node list, producer "
+    "pointers consistent in both directions, covered captures and scoping follow from the C01 kernel invariant "
+    "for graphs whose nodes hold no subgraph (C18_source_of_C01; the embedding ofKernel drops graph attributes and is Lean-only, C01's own "
+    "correspondence ties the kernel to the code); topological order, closed nested graphs and the scoping "
+    "hypothesis are necessary (C18_eval_needs_sorted, C18_eval_needs_closed, C18_extract_eval_needs_scope) and "
+    "their counterexamples are rebuilt on the real code on every run (stream necessity: extract raises for the "
+    "first two shapes and for a nested graph that is itself unsorted; it returns for the ill-scoped third one, "
+    "whose source is not valid ONNX).  Still plain hypotheses: consistent .graph back pointers on nested graphs "
+    "(cannot be broken through the public API; no necessity theorem) and scoping of uses by owner for "
+    "C18_captures_sound / C18_captures_exact (no necessity theorem; an ill-scoped model makes the real analysis "
+    "report a value defined in a sibling graph)",
     "not proved (differential only): that a properly bounded, well scoped, sorted region makes the clone "
-    "stage succeed (converse of C18_raises_of_uncovered); by-name resolution order (create_value_mapping is "
-    "compared entry by entry with the real dict); the Err.initNoName branch is unreachable through the public "
-    "API (an initializer cannot be nameless since D07) and is never exercised",
+    "stage succeed (converse of C18_raises_of_uncovered); the Err.initNoName branch is unreachable through the "
+    "public API (an initializer cannot be nameless since D07) and is never exercised",
     "ReferenceEvaluator and onnx.checker are external oracles; evaluation is compared only on the evaluable op "
     "set (Add Sub Mul Neg Abs Identity Clip Greater Less Not Where If + a two-output custom op), with two input "
     "assignments per model and with perturbed values at boundary inputs cut in the middle (expected values from "
@@ -158,6 +200,8 @@ def build(spec: dict):
         for b in ns.get("bodies", []):
             if b[0] == "ref":
                 attrs.append(ir.RefAttr(b[1], b[2], ir.AttributeType.GRAPH if b[3] == "g" else ir.AttributeType.GRAPHS))
+            elif b[0] == "x":
+                attrs.append(ir.AttrInt64(b[1], 1))  # an attribute of another type: no graph to follow
             elif b[0] == "g":
                 attrs.append(ir.AttrGraph(b[1], mk_graph(b[2])))
             else:
@@ -215,7 +259,7 @@ class Obs:
             self.vals_j.append(
                 [v.name or "", None if p is None else self.nid[id(p)], None if g is None else self.gid[id(g)], bool(v.is_initializer())]
             )
-        self.nodes_j = [self.node_j(objs["nodes"][i]) if i in objs["nodes"] else {"i": [], "o": [], "b": []} for i in range(nmax)]
+        self.nodes_j = [self.node_j(objs["nodes"][i]) if i in objs["nodes"] else {"i": [], "o": [], "a": []} for i in range(nmax)]
 
     def v(self, val):
         return None if val is None else self.vid[id(val)]
@@ -232,11 +276,27 @@ class Obs:
                 out.extend(attr.as_graphs())
         return out
 
+    def attrs_j(self, node) -> list:
+        """the attribute list as the code reads it: reference attribute (whatever its declared type), GRAPH,
+        GRAPHS, anything else — the model (`attrBodies`) decides what that means"""
+        ir = self.ir
+        out = []
+        for attr in node.attributes.values():
+            if attr.is_ref():
+                out.append(["ref"])
+            elif attr.type == ir.AttributeType.GRAPH:
+                out.append(["g", self.graph_j(attr.as_graph())])
+            elif attr.type == ir.AttributeType.GRAPHS:
+                out.append(["gs", [self.graph_j(g) for g in attr.as_graphs()]])
+            else:
+                out.append(["x"])
+        return out
+
     def node_j(self, node) -> dict:
         return {
             "i": [self.v(x) for x in node.inputs],
             "o": [self.v(x) for x in node.outputs],
-            "b": [self.graph_j(g) for g in self.bodies(node)],
+            "a": self.attrs_j(node),
         }
 
     def graph_j(self, g) -> dict:
@@ -629,12 +689,21 @@ def check_model(part, spec: dict, cuts: list, tag: str):
             nnodes=min(len(ires.get("nodes", [])), 6) if ires["r"] == "ok" else "-",
             depth=depth,
             shape=("sorted" if spec.get("sorted", True) else "unsorted"),
+            viewshape=spec["target"].get("shape", "-"),
         )
         if mcmp != ires:
             part.disagree("extract: model != implementation", case, mres, ires)
         if mres["r"] == "ok" and isinstance(mres.get("hyp"), dict):
             h = mres["hyp"]
             part.count("hyp_extract_eval:" + ("all" if all(h.values()) else "missing:" + "+".join(k for k, v in h.items() if not v)))
+            h2 = {k: v for k, v in h.items() if k != "names"}  # C18_extract_eval_strong needs no distinct names
+            part.count("hyp_extract_eval_strong:" + ("all" if all(h2.values()) else "missing:" + "+".join(k for k, v in h2.items() if not v)))
+        if mres["r"] == "ok":
+            # instance of C18_order_source evaluated by the driver: must hold on every successful cut
+            if mres.get("orderOK") is not True:
+                part.disagree("extract: the model's node list is not the filtered last occurrences of the source list", case, mres, ires)
+            if mres.get("dupNodes"):
+                part.count("ok_from_view_with_repeated_nodes")
         # ---------------- oracle (independent of the model)
         # resolve names the way a user would: first value with that name in inputs/initializers/nodes order
         try:
@@ -680,9 +749,11 @@ def check_model(part, spec: dict, cuts: list, tag: str):
         if any(v.is_initializer() and v.is_graph_input() for v in need.values()):
             part.count("ok_needs_input_with_default_not_in_boundary")
         # exact node set, original order
-        exp_nodes = [obs.nid[id(n)] for n in tnodes if id(n) in nodes]
+        exp_nodes = [obs.nid[id(n)] for n in last_occurrences(tnodes) if id(n) in nodes]
         if ires["nodes"] != exp_nodes:
             part.fail(f"extract:{sig_kind}:nodes", "extracted nodes != needed nodes in original order", {**case, "expected": exp_nodes, "impl": ires})
+        if byname:
+            part.count("ok_byname")
         exp_inits = {obs.v(v) for v in need.values() if v.is_initializer()}
         if not isinstance(target, ir.Function):
             exp_inits |= {obs.v(v) for v in ins_v if v.is_initializer()}
@@ -780,7 +851,7 @@ def check_model(part, spec: dict, cuts: list, tag: str):
                         for w in objs["vals"]:
                             if w.is_initializer() and id(w) not in env:
                                 env[id(w)] = w.const_value.numpy()
-                        interp_region(obs, [n for n in tnodes if id(n) in nodes], env, frozen)
+                        interp_region(obs, [n for n in last_occurrences(tnodes) if id(n) in nodes], env, frozen)
                         feeds2 = {v.name: env[id(v)] for v in ins_v}
                         got2 = evaluate(r, feeds2, want)
                         bad = [o for o, nm in zip(outs_v, want) if bits(got2[nm]) != bits(env[id(o)])]
@@ -796,9 +867,24 @@ def check_model(part, spec: dict, cuts: list, tag: str):
                         part.count("perturb_skipped")
 
 
+def last_occurrences(nodes: list) -> list:
+    """the nodes in the order of their LAST occurrence (what a dict built from enumerate() induces); a list
+    without repeats is returned unchanged"""
+    seen: set = set()
+    out = []
+    for n in reversed(nodes):
+        if id(n) not in seen:
+            seen.add(id(n))
+            out.append(n)
+    out.reverse()
+    return out
+
+
 def oracle_resolve(objs, tgraph, tnodes, arg):
     if not isinstance(arg, str):
         return objs["vals"][arg]
+    if not arg:
+        raise KeyError(arg)  # the empty string names nothing (None / "" names are not in the table)
     for v in itertools.chain(tgraph.initializers.values(), tgraph.inputs):
         if v.name == arg:
             return v
@@ -1009,11 +1095,223 @@ def gen_structural(rng: random.Random, n_nodes: int, max_depth: int = 3) -> dict
     return {"vals": vals, "root": root, "target": {"kind": "graph"}, "evaluable": False, "sorted": True, "wellformed": True}
 
 
+def gen_names(rng: random.Random) -> dict:
+    """by-name resolution: few names, many clashes — the same name on a graph input, an initializer and node
+    outputs, in the main graph and in nested graphs, empty / None names; sorted and well scoped"""
+    names = ["a", "b", "c", "d"]
+    vals: list[dict] = []
+    cnt = {"n": 0, "g": 0}
+
+    def newval(init=False, taken=()):
+        r = rng.random()
+        if init:
+            free = [x for x in names + ["w", "w2"] if x not in taken]
+            name = rng.choice(free) if free else f"w{len(vals)}"
+        elif r < 0.08:
+            name = None
+        elif r < 0.14:
+            name = ""
+        elif r < 0.8:
+            name = rng.choice(names)
+        else:
+            name = f"v{len(vals)}"
+        d = {"name": name, "t": "f"}
+        if init:
+            d["init"] = True
+        vals.append(d)
+        return len(vals) - 1
+
+    def graph(depth, outer, n, root):
+        gid = cnt["g"]
+        cnt["g"] += 1
+        inputs = [newval() for _ in range(rng.randrange(1 if root else 0, 3))]
+        inits = []
+        for _ in range(rng.randrange(0, 3)):
+            inits.append(newval(init=True, taken=[vals[i]["name"] for i in inits]))
+        for w in inits:
+            if rng.random() < 0.3:
+                inputs.insert(rng.randrange(len(inputs) + 1), w)
+        local = list(dict.fromkeys(inputs + inits))
+        nodes = []
+        for _ in range(n):
+            pool = outer + local
+            nid = cnt["n"]
+            cnt["n"] += 1
+            ins = [rng.choice(local if local and rng.random() < 0.7 else pool) for _ in range(rng.randrange(0, 3)) if pool]
+            bodies = []
+            if depth < 2 and rng.random() < 0.3:
+                bodies.append(["g", "body", graph(depth + 1, pool, rng.randrange(1, 3), False)])
+            outs = [newval() for _ in range(rng.choice([1, 1, 2]))]
+            nodes.append({"n": nid, "op": "Op", "dom": "verif", "ins": ins, "outs": outs, "bodies": bodies})
+            local = local + outs
+        outputs = rng.sample(local, k=min(len(local), rng.randrange(0, 3)))
+        return {"g": gid, "inputs": inputs, "inits": inits, "outputs": outputs, "nodes": nodes}
+
+    root = graph(0, [], rng.randrange(1, 6), True)
+    return {"vals": vals, "root": root, "target": {"kind": "graph"}, "evaluable": False, "sorted": True, "wellformed": True}
+
+
+def names_cuts(rng: random.Random, spec: dict, k: int) -> list:
+    """cuts given by name (clashing, empty, missing names), mixed with objects"""
+    gs = target_graphspec(spec)
+    own = own_values(gs)
+    pool = sorted({v["name"] for v in spec["vals"] if v["name"]}) + ["", "no_such_name"]
+    cuts = []
+    for _ in range(k):
+        def arg():
+            if rng.random() < 0.75 or not own:
+                return rng.choice(pool)
+            return rng.choice(own)
+        ins = [arg() for _ in range(rng.randrange(0, 3))]
+        outs = [arg() for _ in range(rng.randrange(1, 3))]
+        cuts.append((ins, outs))
+    return cuts
+
+
+def gen_deep(rng: random.Random, depth: int) -> dict:
+    """nesting chain of depth `depth` (>= 4): on every level one node is forced to hold the next level, in a
+    GRAPH attribute or as a member of a GRAPHS attribute next to sibling graphs; reference attributes and
+    attributes of other types in between; inner nodes read values of every enclosing level"""
+    vals: list[dict] = []
+    cnt = {"n": 0, "g": 0}
+
+    def newval(init=False):
+        d = {"name": ("w" if init else "v") + str(len(vals)), "t": "f"}
+        if init:
+            d["init"] = True
+        vals.append(d)
+        return len(vals) - 1
+
+    def graph(level, outer, root=False):
+        gid = cnt["g"]
+        cnt["g"] += 1
+        inputs = [newval() for _ in range(rng.randrange(1 if root else 0, 3))]
+        inits = [newval(init=True) for _ in range(rng.randrange(0, 2))]
+        local = inputs + inits
+        nodes = []
+        n_nodes = rng.randrange(1, 3)
+        forced = rng.randrange(n_nodes)
+        for k in range(n_nodes):
+            pool = outer + local
+            nid = cnt["n"]
+            cnt["n"] += 1
+            ins = []
+            for _ in range(rng.randrange(0, 3)):
+                if pool:
+                    ins.append(rng.choice(outer) if outer and rng.random() < 0.5 else rng.choice(pool))
+            bodies = []
+            if level < depth and (k == forced or rng.random() < 0.15):
+                nxt = graph(level + 1, pool)
+                if rng.random() < 0.5:
+                    bodies.append(["g", "body", nxt])
+                else:
+                    sib = [graph_leaf(pool) for _ in range(rng.randrange(0, 3))]
+                    sib.insert(rng.randrange(len(sib) + 1), nxt)
+                    bodies.append(["gs", "bodies", sib])
+            if rng.random() < 0.25:
+                bodies.insert(rng.randrange(len(bodies) + 1), ["ref", f"ref{nid}", "param", rng.choice(["g", "gs"])])
+            if rng.random() < 0.25:
+                bodies.insert(rng.randrange(len(bodies) + 1), ["x", f"k{nid}"])
+            outs = [newval() for _ in range(rng.choice([1, 1, 2]))]
+            nodes.append({"n": nid, "op": "Op", "dom": "verif", "ins": ins, "outs": outs, "bodies": bodies})
+            local = local + outs
+        outputs = [local[-1]] if nodes else []
+        return {"g": gid, "inputs": inputs, "inits": inits, "outputs": outputs, "nodes": nodes}
+
+    def graph_leaf(outer):
+        gid = cnt["g"]
+        cnt["g"] += 1
+        nid = cnt["n"]
+        cnt["n"] += 1
+        ins = [rng.choice(outer)] if outer and rng.random() < 0.8 else []
+        o = newval()
+        return {"g": gid, "inputs": [], "inits": [], "outputs": [o],
+                "nodes": [{"n": nid, "op": "Op", "dom": "verif", "ins": ins, "outs": [o], "bodies": []}]}
+
+    root = graph(0, [], root=True)
+    return {"vals": vals, "root": root, "target": {"kind": "graph"}, "evaluable": False, "sorted": True, "wellformed": True}
+
+
+# hypotheses shown necessary by a counterexample in the model (Props/C18.lean, C18_*_needs_*): the same shapes on
+# the real code.  `expect`: what the real extract must do — "raised" (loud) or "any" (the source itself is not
+# valid ONNX and extract mirrors it).  A case expected to raise that returns instead is a finding.
+def _v(name, **kw):
+    return {"name": name, "t": "f", **kw}
+
+
+NECESSITY = [
+    {"tag": "unsorted-source", "expect": "raised", "theorem": "C18_eval_needs_sorted",
+     "spec": {"vals": [_v("x"), _v("a"), _v("b")],
+              "root": {"g": 0, "inputs": [0], "inits": [], "outputs": [2], "nodes": [
+                  {"n": 0, "op": "Neg", "dom": "", "ins": [1], "outs": [2], "bodies": []},
+                  {"n": 1, "op": "Neg", "dom": "", "ins": [0], "outs": [1], "bodies": []}]},
+              "target": {"kind": "graph"}, "sorted": False, "wellformed": False},
+     "ins": [0], "outs": [2]},
+    {"tag": "nested-output-is-outer-value", "expect": "raised", "theorem": "C18_eval_needs_closed",
+     "spec": {"vals": [_v("x"), _v("c"), _v("y")],
+              "root": {"g": 0, "inputs": [0], "inits": [], "outputs": [2], "nodes": [
+                  {"n": 0, "op": "Neg", "dom": "", "ins": [0], "outs": [1], "bodies": []},
+                  {"n": 1, "op": "Op", "dom": "verif", "ins": [], "outs": [2], "bodies": [
+                      ["g", "body", {"g": 1, "inputs": [], "inits": [], "outputs": [1], "nodes": []}]]}]},
+              "target": {"kind": "graph"}, "sorted": True, "wellformed": False},
+     "ins": [0], "outs": [2]},
+    {"tag": "nested-graph-unsorted", "expect": "raised", "theorem": "C18_eval_needs_closed",
+     "spec": {"vals": [_v("x"), _v("y"), _v("t"), _v("o")],
+              "root": {"g": 0, "inputs": [0], "inits": [], "outputs": [1], "nodes": [
+                  {"n": 0, "op": "Op", "dom": "verif", "ins": [], "outs": [1], "bodies": [
+                      ["g", "body", {"g": 1, "inputs": [], "inits": [], "outputs": [3], "nodes": [
+                          {"n": 1, "op": "Neg", "dom": "", "ins": [2], "outs": [3], "bodies": []},
+                          {"n": 2, "op": "Neg", "dom": "", "ins": [0], "outs": [2], "bodies": []}]}]]}]},
+              "target": {"kind": "graph"}, "sorted": True, "wellformed": False},
+     "ins": [0], "outs": [1]},
+    {"tag": "sibling-graph-input-read", "expect": "any", "theorem": "C18_extract_eval_needs_scope",
+     "spec": {"vals": [_v("x"), _v("u"), _v("y0"), _v("t"), _v("y1")],
+              "root": {"g": 0, "inputs": [0], "inits": [], "outputs": [4], "nodes": [
+                  {"n": 0, "op": "Op", "dom": "verif", "ins": [0], "outs": [2], "bodies": [
+                      ["g", "body", {"g": 1, "inputs": [1], "inits": [], "outputs": [1], "nodes": []}]]},
+                  {"n": 1, "op": "Op", "dom": "verif", "ins": [2], "outs": [4], "bodies": [
+                      ["g", "body", {"g": 2, "inputs": [], "inits": [], "outputs": [3], "nodes": [
+                          {"n": 2, "op": "Neg", "dom": "", "ins": [1], "outs": [3], "bodies": []}]}]]}]},
+              "target": {"kind": "graph"}, "sorted": True, "wellformed": False},
+     "ins": [0], "outs": [4]},
+    {"tag": "same-named-initializers-of-two-scopes", "expect": "raised", "theorem": "C18_extract_eval_strong (hnames discharged)",
+     "spec": {"vals": [_v("x"), _v("w", init=True), _v("y"), _v("w", init=True), _v("t")],
+              "root": {"g": 0, "inputs": [0], "inits": [1], "outputs": [2], "nodes": [
+                  {"n": 0, "op": "Op", "dom": "verif", "ins": [0], "outs": [2], "bodies": [
+                      ["g", "body", {"g": 1, "inputs": [], "inits": [3], "outputs": [4], "nodes": [
+                          {"n": 1, "op": "Add", "dom": "", "ins": [1, 3], "outs": [4], "bodies": []}]}]]}]},
+              "target": {"kind": "sub", "gid": 1}, "sorted": True, "wellformed": False},
+     "ins": [], "outs": [4]},
+    {"tag": "view-repeats-producer-after-consumer", "expect": "raised", "theorem": "C18_order_source",
+     "spec": {"vals": [_v("x"), _v("a"), _v("b")],
+              "root": {"g": 0, "inputs": [0], "inits": [], "outputs": [2], "nodes": [
+                  {"n": 0, "op": "Neg", "dom": "", "ins": [0], "outs": [1], "bodies": []},
+                  {"n": 1, "op": "Neg", "dom": "", "ins": [1], "outs": [2], "bodies": []}]},
+              "target": {"kind": "view", "shape": "repeat", "inputs": [0], "outputs": [2], "nodes": [0, 1, 0], "inits": []},
+              "sorted": False, "wellformed": False},
+     "ins": [0], "outs": [2]},
+]
+
+
+def check_necessity(part, item: dict):
+    """the model agrees with the code on the counterexample shape (through check_model), and the real code is
+    loud where the theorems' hypotheses fail"""
+    spec, ins, outs = item["spec"], item["ins"], item["outs"]
+    objs = build(spec)
+    _r, ires = run_real(objs, ins, outs)
+    part.count(f"necessity:{item['tag']}:{ires['r']}" + (":" + ires.get("kind", "") if ires["r"] == "raised" else ""))
+    if item["expect"] == "raised" and ires["r"] != "raised":
+        part.fail(f"extract:necessity:{item['tag']}:silently-returned",
+                  f"a hypothesis of {item['theorem']} fails on this source and extract returned a graph instead of raising",
+                  {"spec": spec, "ins": ins, "outs": outs, "impl": ires})
+    yield from check_model(part, spec, [(ins, outs)], "necessity")
+
+
 def spec_depth(gs: dict) -> int:
     d = 0
     for n in gs["nodes"]:
         for b in n.get("bodies", []):
-            if b[0] == "ref":
+            if b[0] in ("ref", "x"):
                 continue
             for x in [b[2]] if b[0] == "g" else b[2]:
                 d = max(d, 1 + spec_depth(x))
@@ -1024,7 +1322,7 @@ def walk_graphs(gs: dict):
     yield gs
     for n in gs["nodes"]:
         for b in n.get("bodies", []):
-            if b[0] == "ref":
+            if b[0] in ("ref", "x"):
                 continue
             for x in [b[2]] if b[0] == "g" else b[2]:
                 yield from walk_graphs(x)
@@ -1060,15 +1358,43 @@ def with_target(rng: random.Random, spec: dict, kind: str) -> dict:
         spec["evaluable"] = False
     elif kind == "view":
         nodes = [n["n"] for n in root["nodes"]]
-        if rng.random() < 0.5:
+        r_ = rng.random()
+        shape = "all"
+        if r_ < 0.4:
             keep = nodes
-        else:
+        elif r_ < 0.6:
             a = rng.randrange(0, len(nodes) + 1)
             b = rng.randrange(a, len(nodes) + 1)
             keep = nodes[a:b]
+            shape = "slice"
+        elif r_ < 0.75:
+            # a strict subset that need not be contiguous
+            keep = [n for n in nodes if rng.random() < 0.7]
+            shape = "subset"
+        elif r_ < 0.9 and nodes:
+            # a node listed more than once (node_index keeps the last position)
+            keep = list(nodes)
+            for _ in range(rng.randrange(1, 3)):
+                keep.insert(rng.randrange(len(keep) + 1), rng.choice(nodes))
+            shape = "repeat"
+        else:
+            keep = list(nodes)
+            rng.shuffle(keep)
+            shape = "shuffled"
+        # the order the extractor will use: last occurrences; when it is not the original order the clone may
+        # (legitimately, loudly) reject the region
+        last = []
+        for n in reversed(keep):
+            if n not in last:
+                last.append(n)
+        last.reverse()
+        if [n for n in nodes if n in last] != last:
+            spec["sorted"] = False
+            spec["evaluable"] = False
         own = own_values(root)
         spec["target"] = {
             "kind": "view",
+            "shape": shape,
             "inputs": list(root["inputs"]) if rng.random() < 0.7 else rng.sample(own, k=min(len(own), 2)),
             "outputs": list(root["outputs"]),
             "nodes": keep,
@@ -1204,6 +1530,8 @@ def work(items) -> dict:
                 gens.append(check_model(part, spec, cuts[i : i + 400], tag))
         elif kind == "aux":
             gens.append(check_aux(part, payload))
+        elif kind == "necessity":
+            gens.append(check_necessity(part, payload))
     drive(part, gens)
     return part
 
@@ -1247,6 +1575,38 @@ def check_aux(part, payload):
     reqs.append({"m": "extract.mapping", **world, "target": tj})
     impls.append({"r": [[k, obs.v(v)] for k, v in vm.items()]})
     whats.append(("mapping",))
+    # by-name resolution: every name that occurs in the model, a missing one, the empty one
+    tnodes_ = list(target)
+    pool_names = sorted({v.name for v in objs["vals"] if v.name} | {"", "no_such_name"})
+    pairs = [(k, v) for k, v in tgraph.initializers.items()]
+    inputs_named = [(v.name, v) for v in tgraph.inputs if v.name]
+    node_named = [(v.name, v) for n in tnodes_ for v in itertools.chain(n.inputs, n.outputs) if v is not None and v.name]
+    impl_rows = []
+    for nm in pool_names:
+        # independent reading of the documented precedence: initializer key, graph input, node values in order
+        cls, first = "missing", None
+        for c, lst in (("init", pairs), ("input", inputs_named), ("node", node_named)):
+            hit = [v for k, v in lst if k == nm]
+            if hit:
+                cls, first = c, hit[0]
+                break
+        got_v = vm.get(nm)
+        if (got_v is None) != (first is None) or (got_v is not None and got_v is not first):
+            part.fail("byname:precedence", "create_value_mapping does not return the first value with that name in the order initializers, inputs, node inputs/outputs",
+                      {"spec": spec, "name": nm, "got": obs.v(got_v), "expected": obs.v(first)})
+        allc = [v for k, v in pairs + inputs_named + node_named if k == nm]
+        impl_rows.append([obs.v(got_v), obs.v(got_v), cls, "ok" if nm in vm else "nameNotFound", [obs.v(v) for v in allc]])
+    allpairs = pairs + inputs_named + node_named
+    unique = all(v is v2 for k, v in allpairs for k2, v2 in allpairs if k == k2)
+    part.count("hyp_names_unique:" + ("true" if unique else "false"))
+    if unique:
+        # unique names: a name resolves to THE value of the source with that name
+        for k, v in allpairs:
+            if vm.get(k) is not v:
+                part.fail("byname:unique", "names are unique but a name does not resolve to the value carrying it", {"spec": spec, "name": k})
+    reqs.append({"m": "extract.resolve", **world, "target": tj, "names": pool_names})
+    impls.append({"r": impl_rows, "unique": unique})
+    whats.append(("resolve",))
     # _find_subgraph_bounded_by_values with an arbitrary parent
     for _ in range(6):
         ins, outs = random_cut(rng, {**spec, "target": spec["target"]})
@@ -1289,23 +1649,31 @@ def check_aux(part, payload):
             elif got["r"] != "ok":
                 part.fail(f"find:{shape}:raised", "region search raised for a region whose needed nodes are all covered", {**fcase, "got": got})
             else:
-                exp_nodes = [obs.nid[id(n)] for n in tnodes if id(n) in nodes]
+                exp_nodes = [obs.nid[id(n)] for n in last_occurrences(tnodes) if id(n) in nodes]
                 exp_inits = {obs.v(v) for v in need.values() if v.is_initializer()}
                 if not isinstance(target, ir.Function):
                     exp_inits |= {i for i in ins if objs["vals"][i].is_initializer()}
                 if got["nodes"] != exp_nodes or got["inited"] != sorted(exp_inits):
                     part.fail(f"find:{shape}:result", "region search: nodes/initializers differ from the needed ones in original order",
                               {**fcase, "got": got, "expected": [exp_nodes, sorted(exp_inits)]})
-    # analyze_implicit_usage on every graph
-    for gid, g in graphs:
+    # analyze_implicit_usage on every graph, and on the Function object when the target is a function
+    roots = [(gid, g, g, None) for gid, g in graphs]
+    if isinstance(target, ir.Function):
+        roots.append((obs.gid[id(tgraph)], target, tgraph, 10**6))
+    for gid, arg, g, root_id in roots:
         try:
-            res = analyze_implicit_usage(g)
+            res = analyze_implicit_usage(arg)
             got = {"r": sorted([obs.gid[id(k)], sorted(obs.v(v) for v in vs)] for k, vs in res.items())}
         except Exception as e:  # noqa: BLE001
             got = {"r": "raised", "py": type(e).__name__}
-        reqs.append({"m": "extract.analyze", **world, "graph": obs.graph_j(g)})
+        req = {"m": "extract.analyze", **world, "graph": obs.graph_j(g)}
+        if root_id is not None:
+            req["root"] = root_id
+            part.count("analyze_on_function_object")
+        reqs.append(req)
         impls.append(got)
-        whats.append(("analyze", gid))
+        whats.append(("analyze", gid, root_id))
+        part.count(f"analyze_depth:{min(graph_depth(obs, g), 6)}")
         # oracle: every nested graph -> its free variables (used in it or deeper, not defined in it or deeper)
         if spec.get("wellformed", True):
             exp = []
@@ -1322,12 +1690,26 @@ def check_aux(part, payload):
         part.case([w, spec["vals"], spec["root"], spec["target"]], nontrivial=True, stream="aux", fn=w[0],
                   outcome=impl["r"] if isinstance(impl["r"], str) else "ok")
         cmp_ = {k: out.get(k) for k in impl}
+        if w[0] == "resolve" and isinstance(cmp_.get("r"), list):
+            cmp_["r"] = [[a, b, c, str(d).rsplit(".", 1)[-1], e] for a, b, c, d, e in cmp_["r"]]
         if impl.get("r") == "raised" and "kind" in cmp_:
             cmp_["kind"] = (cmp_["kind"] or "").rsplit(".", 1)[-1]
         if w[0] == "analyze" and "hyp" in out:
             part.count("hyp_captures:" + ("all" if out["hyp"] else "missing"))
+            part.count("hyp_captures_exact:" + ("all" if out.get("hypExact") else "missing"))
+            # instance of C18_attrs_bodies: branch by branch over the attributes == on the flattened bodies
+            if out.get("r") != out.get("r2"):
+                part.disagree("analyze: procAttrs != procN on attrBodies", {"spec": spec, "what": w}, out, impl)
         if cmp_ != impl:
             part.disagree(f"{w[0]}: model != implementation", {"spec": spec, "what": w}, out, impl)
+
+
+def graph_depth(obs: Obs, g) -> int:
+    d = 0
+    for n in g:
+        for b in obs.bodies(n):
+            d = max(d, 1 + graph_depth(obs, b))
+    return d
 
 
 def nested_graphs(obs: Obs, g):
@@ -1429,6 +1811,32 @@ def make_items(ctx: Ctx) -> list:
             cuts.append((list(spec["root"]["inputs"]), [det] + list(spec["root"]["outputs"])))
         items.append(("cuts", (spec, cuts, "random")))
         items.append(("aux", (spec, r.random())))
+    # (C) by-name resolution: clashing / empty / missing names, every kind of source
+    for k in range(ctx.pick(60, 1200)):
+        r = random.Random(rng.random())
+        spec = with_target(r, gen_names(r), ["graph", "view", "function", "sub"][k % 4])
+        items.append(("cuts", (spec, names_cuts(r, spec, 10), "byname")))
+        items.append(("aux", (spec, r.random())))
+    # (D) views over the evaluable family: subsets, repeats, other orders
+    for k in range(ctx.pick(40, 800)):
+        r = random.Random(rng.random())
+        try:
+            spec = gen_evaluable(r, r.randrange(3, 9), max_depth=2)
+        except RuntimeError:
+            continue
+        spec = with_target(r, spec, "view")
+        items.append(("cuts", (spec, [random_cut(r, spec) for _ in range(10)], "views")))
+        items.append(("aux", (spec, r.random())))
+    # (E) deep nesting (depth 4..6) through GRAPH / GRAPHS attributes: capture analysis and extraction
+    for k in range(ctx.pick(30, 600)):
+        r = random.Random(rng.random())
+        spec = gen_deep(r, 4 + k % 3)
+        spec = with_target(r, spec, ["graph", "function", "sub", "graph"][k % 4])
+        items.append(("cuts", (spec, [random_cut(r, spec) for _ in range(8)], "deep")))
+        items.append(("aux", (spec, r.random())))
+    # (F) the counterexamples of the necessity theorems, on the real code
+    for it in NECESSITY:
+        items.append(("necessity", it))
     return items
 
 
@@ -1436,8 +1844,11 @@ def run(ctx: Ctx) -> None:
     ctx.rule = (
         "a case = (model, target kind, boundary inputs, boundary outputs); distinct by the full description; "
         "exhaustive: every cut with <= 3 inputs and <= 2 outputs over (up to 9) values of each small model; "
-        "random: larger nested models x random cuts by object/name; aux cases = one call of "
-        "_collect_all_external_values / create_value_mapping / _find_subgraph_bounded_by_values / analyze_implicit_usage"
+        "random: larger nested models x random cuts by object/name; byname: clashing/empty/missing names; views: "
+        "GraphView sources with subsets, repeats, other orders; deep: nesting depth 4..6 through GRAPH/GRAPHS "
+        "attributes; necessity: the counterexamples of the C18_*_needs_* theorems on the real code; aux cases = one "
+        "call of _collect_all_external_values / create_value_mapping (+ by-name resolution of every name) / "
+        "_find_subgraph_bounded_by_values / analyze_implicit_usage (on graphs and on the Function object)"
     )
     for obj in load_corpus("C18"):
         replay(ctx, obj)
